@@ -452,7 +452,7 @@ def run_coqchk(cid, timeout=1800):
 
 # ------------------------------------------------------------------ generic correspondence runner
 
-def corr_run(ctx, stream, preamble, fn, eqb, cases, shard=400, timeout=900):
+def corr_run(ctx, stream, preamble, fn, eqb, cases, shard=400, timeout=900, ty=None):
     """cases: list of (input_term, expected_term, description_obj).
     Evaluates `fn input` in Coq for every case and compares with expected
     using `eqb`.  Mismatches are registered as divergences (with the model's
@@ -462,7 +462,7 @@ def corr_run(ctx, stream, preamble, fn, eqb, cases, shard=400, timeout=900):
     jobs = []
     for k in range(0, len(cases), shard):
         chunk = cases[k:k + shard]
-        body = [preamble, "\nDefinition cases_ := [\n"]
+        body = [preamble, "\nDefinition cases_ %s:= [\n" % (f": list ({ty}) " if ty else "")]
         body.append(";\n".join(f"({i}, {e})" for i, e, _ in chunk))
         body.append("\n].\n")
         body.append(f"Eval vm_compute in (mismatches ({eqb}) ({fn}) cases_).\n")
